@@ -54,6 +54,10 @@ pub fn key_pool() -> Vec<Ex> {
         Ex::Dict(None, vec![(int(1), Some(int(2))), (int(3), Some(int(4)))]),
         Ex::Dict(None, vec![(fl(3.0), Some(int(4))), (fl(1.0), Some(fl(2.0)))]),
         Ex::List(vec![]),
+        // NaN inside containers: as a key it equals itself there too
+        call("V", vec![fl(f64::NAN), int(1)]),
+        Ex::List(vec![fl(f64::NAN)]),
+        Ex::Dict(None, vec![(int(2), Some(call("V", vec![fl(f64::NAN)])))]),
     ]
 }
 
@@ -71,7 +75,7 @@ pub fn generate(seed: u64, fault_free: bool) -> DictOut {
     // a run works with a small subset so that collisions between equal spellings are frequent
     let n_keys = 3 + g.rng.below(5);
     let mut keys: Vec<Ex> = Vec::new();
-    let group_starts = [0usize, 4, 6, 10, 12, 15, 17, 23, 25, 27, 29];
+    let group_starts = [0usize, 4, 6, 10, 12, 15, 17, 23, 25, 27, 29, 32, 33, 34];
     for _ in 0..n_keys {
         if g.rng.chance(2, 3) {
             // pick inside one equality group
